@@ -85,8 +85,10 @@ enum Spec {
     Capture { pmax: u64, amax: u64, content: Segs, sizes: Vec<u64> },
     Lifecycle { codes: Vec<u64> },
     /// a real background task through the router; variant: 0 normal, 1 unsupported tool, 2 invalid args,
-    /// 3 post-spawn failure (absolute cwd), 4 shell exits while a background writer still holds stderr
-    Task { variant: u64, out: Segs, err: Segs, cap: u64, plimit: u64, exit: u64, cancel_after_ms: Option<u64>, page: u64 },
+    /// 3 post-spawn failure (absolute cwd), 4 shell exits while a background writer still holds stderr,
+    /// 5/6/7 the shell exits at once and a descendant that inherited stdout (5) / stderr (6) / both (7)
+    /// writes `err` `late_ms` milliseconds later (well over a second: the waiter must still join the pumps)
+    Task { variant: u64, out: Segs, err: Segs, cap: u64, plimit: u64, exit: u64, cancel_after_ms: Option<u64>, page: u64, late_ms: u64 },
     /// a real foreground `bash` tool run
     Bash { out: Segs, err: Segs, pmax: u64, amax: u64, exit: u64 },
 }
@@ -131,7 +133,7 @@ fn spec_json(s: &Spec) -> Value {
         Spec::Pump { cap, plimit, content, sizes } => json!({"kind": "pump", "cap": cap, "preview_limit": plimit, "content": segs_json(content), "sizes": sizes}),
         Spec::Capture { pmax, amax, content, sizes } => json!({"kind": "capture_stream", "preview_limit": pmax, "cap": amax, "content": segs_json(content), "sizes": sizes}),
         Spec::Lifecycle { codes } => json!({"kind": "lifecycle", "codes": codes}),
-        Spec::Task { variant, out, err, cap, plimit, exit, cancel_after_ms, page } => json!({"kind": "task", "variant": variant, "stdout": segs_json(out), "stderr": segs_json(err), "cap": cap, "preview_limit": plimit, "exit": exit, "cancel_after_ms": cancel_after_ms, "page": page}),
+        Spec::Task { variant, out, err, cap, plimit, exit, cancel_after_ms, page, late_ms } => json!({"kind": "task", "variant": variant, "stdout": segs_json(out), "stderr": segs_json(err), "cap": cap, "preview_limit": plimit, "exit": exit, "cancel_after_ms": cancel_after_ms, "page": page, "late_ms": late_ms}),
         Spec::Bash { out, err, pmax, amax, exit } => json!({"kind": "bash", "stdout": segs_json(out), "stderr": segs_json(err), "preview_limit": pmax, "cap": amax, "exit": exit}),
     }
 }
@@ -152,7 +154,7 @@ fn spec_from_json(v: &Value) -> Option<Spec> {
         "pump" => Spec::Pump { cap: g("cap"), plimit: g("preview_limit"), content: segs_from(&v["content"]), sizes: u64s(&v["sizes"]) },
         "capture_stream" => Spec::Capture { pmax: g("preview_limit"), amax: g("cap"), content: segs_from(&v["content"]), sizes: u64s(&v["sizes"]) },
         "lifecycle" => Spec::Lifecycle { codes: u64s(&v["codes"]) },
-        "task" => Spec::Task { variant: g("variant"), out: segs_from(&v["stdout"]), err: segs_from(&v["stderr"]), cap: g("cap"), plimit: g("preview_limit"), exit: g("exit"), cancel_after_ms: v.get("cancel_after_ms").and_then(|x| x.as_u64()), page: g("page") },
+        "task" => Spec::Task { variant: g("variant"), out: segs_from(&v["stdout"]), err: segs_from(&v["stderr"]), cap: g("cap"), plimit: g("preview_limit"), exit: g("exit"), cancel_after_ms: v.get("cancel_after_ms").and_then(|x| x.as_u64()), page: g("page"), late_ms: g("late_ms") },
         "bash" => Spec::Bash { out: segs_from(&v["stdout"]), err: segs_from(&v["stderr"]), pmax: g("preview_limit"), amax: g("cap"), exit: g("exit") },
         _ => return None,
     })
@@ -755,8 +757,40 @@ fn lifecycle_oracle(o: &mut Obs, codes: &[u64], spawnless_expected: bool) {
     }
 }
 
-#[allow(clippy::too_many_arguments)]
-async fn run_task(w: &mut World, variant: u64, out: &Segs, err: &Segs, cap: u64, plimit: u64, exit: u64, cancel_after_ms: Option<u64>, page: u64) -> (Obs, Vec<u64>) {
+/// Live observation of a task stream: GET /tasks/{id}/events (SSE: snapshot, then live frames; the
+/// response never ends by itself) read in the background until the caller aborts the reader.
+fn sse_watch(app: &axum::Router, id: &str) -> (Arc<std::sync::Mutex<Vec<Value>>>, tokio::task::JoinHandle<()>) {
+    use http_body_util::BodyExt;
+    use tower::ServiceExt;
+    let got = Arc::new(std::sync::Mutex::new(vec![]));
+    let sink = got.clone();
+    let app = app.clone();
+    let uri = format!("/tasks/{id}/events");
+    let h = tokio::spawn(async move {
+        let Ok(resp) = app.oneshot(req("GET", &uri, None)).await;
+        let mut body = resp.into_body();
+        let mut buf: Vec<u8> = vec![];
+        while let Some(Ok(frame)) = body.frame().await {
+            let Ok(data) = frame.into_data() else { continue };
+            buf.extend_from_slice(&data);
+            while let Some(i) = buf.windows(2).position(|w| w == b"\n\n") {
+                let ev: Vec<u8> = buf.drain(..i + 2).collect();
+                for line in String::from_utf8_lossy(&ev).lines() {
+                    if let Some(d) = line.strip_prefix("data:") {
+                        if let Ok(v) = serde_json::from_str::<Value>(d.trim()) {
+                            sink.lock().unwrap().push(v);
+                        }
+                    }
+                }
+            }
+        }
+    });
+    (got, h)
+}
+
+async fn run_task(w: &mut World, spec: &Spec) -> (Obs, Vec<u64>) {
+    let Spec::Task { variant, out, err, cap, plimit, exit, cancel_after_ms, page, late_ms } = spec else { return (Obs::default(), vec![]) };
+    let (variant, cap, plimit, exit, cancel_after_ms, page, late_ms) = (*variant, *cap, *plimit, *exit, *cancel_after_ms, *page, *late_ms);
     let mut o = Obs::default();
     w.n += 1;
     let (outb, errb) = (expand(out), expand(err));
@@ -764,9 +798,27 @@ async fn run_task(w: &mut World, variant: u64, out: &Segs, err: &Segs, cap: u64,
     std::fs::write(w.ws.join(&fo), &outb).unwrap();
     std::fs::write(w.ws.join(&fe), &errb).unwrap();
     let tail = if cancel_after_ms.is_some() { "; sleep 3" } else { "" };
+    let late = (5..=7).contains(&variant);
+    let marker = format!("late{}.done", w.n);
+    let d = format!("{}.{:03}", late_ms / 1000, late_ms % 1000);
     // variant 4: the shell exits at once while a background writer still holds stderr: the terminal
-    // status must wait for the pumps (EOF), so the late output precedes it
-    let command = if variant == 4 { format!("cat {fo}; (sleep 0.2; cat {fe} >&2) & exit {exit}") } else { format!("cat {fo}; cat {fe} >&2{tail}; exit {exit}") };
+    // status must wait for the pumps (EOF), so the late output precedes it.
+    // variants 5-7: the same with a descendant that outlives the shell by `late_ms` (> 1 s) and holds
+    // stdout only / stderr only / both; it leaves a marker file when it has written, so the harness
+    // knows (independently of load) from when on nothing more can come.
+    let command = match variant {
+        4 => format!("cat {fo}; (sleep 0.2; cat {fe} >&2) & exit {exit}"),
+        5 => format!("cat {fo}; (sleep {d}; cat {fe}; touch {marker}) 2>/dev/null & exit {exit}"),
+        6 => format!("cat {fo}; (sleep {d}; cat {fe} >&2; touch {marker}) >/dev/null & exit {exit}"),
+        7 => format!("cat {fo}; (sleep {d}; cat {fe}; cat {fe} >&2; touch {marker}) & exit {exit}"),
+        _ => format!("cat {fo}; cat {fe} >&2{tail}; exit {exit}"),
+    };
+    // what each stream of the process tree writes, in order
+    let (exp_out, exp_err): (Vec<u8>, Vec<u8>) = match variant {
+        5 => ([outb.clone(), errb.clone()].concat(), vec![]),
+        7 => ([outb.clone(), errb.clone()].concat(), errb.clone()),
+        _ => (outb.clone(), errb.clone()),
+    };
     let body = match variant {
         1 => json!({"tool": "python", "args": {"command": command}}),
         2 => json!({"tool": "bash", "args": {"command": 17}}),
@@ -782,6 +834,7 @@ async fn run_task(w: &mut World, variant: u64, out: &Segs, err: &Segs, cap: u64,
         }
         return (o, vec![]);
     }
+    let live = if late { Some(sse_watch(&w.app, &id)) } else { None };
     if let Some(ms) = cancel_after_ms {
         if ms > 0 {
             tokio::time::sleep(Duration::from_micros(ms * 700)).await;
@@ -797,7 +850,20 @@ async fn run_task(w: &mut World, variant: u64, out: &Segs, err: &Segs, cap: u64,
         }
         tokio::time::sleep(Duration::from_millis(5)).await;
     }
-    tokio::time::sleep(Duration::from_millis(if variant == 4 { 500 } else { 60 })).await;
+    // late writers: keep observing until the descendant has written (marker file; up to 60 s more: a
+    // descendant that never reports was killed with the shell, which the property does not forbid) and
+    // then for a grace period in which a detached pump would deliver what it read
+    let mut late_done = false;
+    if late {
+        for _ in 0..12_000 {
+            if w.ws.join(&marker).exists() {
+                late_done = true;
+                break;
+            }
+            tokio::time::sleep(Duration::from_millis(5)).await;
+        }
+    }
+    tokio::time::sleep(Duration::from_millis(if late { 700 } else if variant == 4 { 500 } else { 60 })).await;
     frames = task_frames(&w.data, &id);
     let codes: Vec<u64> = frames.iter().map(frame_code).collect();
     if !codes.iter().any(|c| (22..=24).contains(c)) {
@@ -810,7 +876,21 @@ async fn run_task(w: &mut World, variant: u64, out: &Segs, err: &Segs, cap: u64,
         }
     }
     lifecycle_oracle(&mut o, &codes, false);
-    if variant != 0 && variant != 4 {
+    if let Some((got, h)) = live {
+        // the live stream (SSE) over the same period: seqs from 0 without gap, nothing after the terminal frame
+        h.abort();
+        let seen: Vec<Value> = got.lock().unwrap().clone();
+        let lc: Vec<u64> = seen.iter().map(frame_code).collect();
+        if seen.iter().enumerate().any(|(i, e)| u(e, "seq") != i as u64) {
+            o.fail("live_stream_seq_not_consecutive", format!("GET /tasks/{{id}}/events delivered seqs {:?}", seen.iter().map(|e| u(e, "seq")).collect::<Vec<_>>()));
+        }
+        if let Some(t) = lc.iter().position(|c| (22..=24).contains(c)) {
+            if t + 1 != lc.len() {
+                o.fail("frame_after_terminal_status", format!("the live stream (GET /tasks/{{id}}/events) delivers frames after the terminal status: {lc:?}"));
+            }
+        }
+    }
+    if variant != 0 && variant != 4 && !late {
         if codes.last() != Some(&24) {
             o.fail("failure_not_reported_failed", format!("{codes:?}"));
         }
@@ -818,16 +898,25 @@ async fn run_task(w: &mut World, variant: u64, out: &Segs, err: &Segs, cap: u64,
     }
     // streams
     let spawn = &frames[0];
-    let last = frames.last().unwrap();
+    // the terminal status frame (normally the last frame; when frames follow it that is reported above)
+    let last = frames.iter().find(|e| (22..=24).contains(&frame_code(e))).unwrap();
     let cancelled = codes.contains(&2);
-    if !cancelled && (codes.last() != Some(&22) || last.get("exit_code").and_then(|x| x.as_u64()) != Some(exit)) {
+    if !cancelled && (frame_code(last) != 22 || last.get("exit_code").and_then(|x| x.as_u64()) != Some(exit)) {
         o.fail("exit_status_wrong", format!("expected exited/{exit}: {}", last));
     }
-    for (name, content) in [("stdout", &outb), ("stderr", &errb)] {
+    // GET /tasks/{id} after the end reports what the terminal frame reported
+    let (sst, status) = call_json(&w.app, req("GET", &format!("/tasks/{id}"), None)).await;
+    if sst != 200 || status["artifacts"] != last["artifacts"] || status["exit_code"] != last["exit_code"] {
+        o.fail("status_differs_from_terminal_frame", format!("GET /tasks/{{id}} -> {sst} {status} after the terminal frame {last}"));
+    }
+    for (name, content) in [("stdout", &exp_out), ("stderr", &exp_err)] {
         let lid = spawn["artifacts"]["logs"][name]["id"].as_str().unwrap_or("").to_string();
         let sum = &last["artifacts"]["logs"][name];
         let blob = read_blob_settled(&mut o, &blob_path(&w.ws, &lid), u(sum, "bytes_stored"));
-        if cancelled {
+        if !sum["error"].is_null() {
+            o.fail("summary_wrong", format!("{name} summary of a task whose process tree has ended carries an error: {sum}"));
+        }
+        if cancelled || (late && !late_done) {
             if blob.len() as u64 > cap || !content.starts_with(&blob) {
                 o.fail("stored_not_prefix", format!("{name} log of a cancelled task ({} bytes) is not a prefix of the output within cap {cap}", blob.len()));
             }
@@ -1080,7 +1169,7 @@ fn gen_real(r: &mut Rng) -> Spec {
         let big = r.chance(1, 4);
         let err = if r.chance(1, 2) { gen_content(r, &[plimit.min(200), 7, 0], big) } else { vec![] };
         let cancel_after_ms = if variant == 0 && r.chance(1, 4) { Some(r.below(40)) } else { None };
-        Spec::Task { variant, out, err, cap, plimit, exit: *r.pick(&[0u64, 0, 1, 3, 7]), cancel_after_ms, page: *r.pick(&[0u64, 4, 5, 7, 64, 4096, 8192]) }
+        Spec::Task { variant, out, err, cap, plimit, exit: *r.pick(&[0u64, 0, 1, 3, 7]), cancel_after_ms, page: *r.pick(&[0u64, 4, 5, 7, 64, 4096, 8192]), late_ms: 0 }
     } else {
         let pmax = *r.pick(&limits[..]);
         let amax = *r.pick(&caps[..]);
@@ -1091,11 +1180,33 @@ fn gen_real(r: &mut Rng) -> Spec {
     }
 }
 
+/// a task whose shell exits at once while a descendant keeps the inherited pipe(s) and writes `late_ms`
+/// later (1.2 - 3 s: longer than any plausible "drain" timeout of a second); the i-th such case of a run
+/// takes the i-th variant / delay so that a handful of them covers stdout-only, stderr-only and both
+fn gen_late(r: &mut Rng, i: u64) -> Spec {
+    const DELAYS: [u64; 6] = [1300, 2200, 3000, 1700, 2600, 1200];
+    let n0 = 1 + r.below(30);
+    let out = if r.chance(1, 5) { vec![] } else { vec![(gen_text(r, n0), 1)] };
+    let n = 1 + r.below(20);
+    let err = vec![(gen_text(r, n), 1)];
+    Spec::Task {
+        variant: 5 + i % 3,
+        out,
+        err,
+        cap: *r.pick(&[5u64, 100, 1 << 20, 1 << 20]),
+        plimit: *r.pick(&[0u64, 4, 64, 8192]),
+        exit: *r.pick(&[0u64, 0, 3]),
+        cancel_after_ms: None,
+        page: *r.pick(&[0u64, 5, 64]),
+        late_ms: DELAYS[(i % 6) as usize] + if i >= 6 { r.below(400) } else { 0 },
+    }
+}
+
 fn main() {
     let a = parse_args();
     let mut res = RunResult::new("C17", &a);
     res.rule = "direct-drive cases = (caps, preview limits, content, chunking) from a seeded generator: content valid multi-byte text / biased binary / large repeated patterns around 8192; chunk sizes 1, small, 8191/8192, whole; caps and limits incl. 0; random (offset,max_bytes) pages and page walks; real runs = background tasks through the router (POST /tasks, cancel at random delays, pre-/post-spawn failures, GET output page walks) and foreground bash tool runs with generated stdout/stderr volumes; non-trivial = more than one chunk or multi-byte content or an actual truncation or a real run with output; distinct by hash of the case".into();
-    let (n, nreal) = if a.thorough() { (6000, 700) } else { (600, 70) };
+    let (n, nreal, nlate) = if a.thorough() { (6000, 700, 18) } else { (600, 70, 4) };
     let rt = tokio::runtime::Builder::new_multi_thread().worker_threads(4).enable_all().build().unwrap();
     let mut r = Rng::new(a.seed);
     let mut w = CaseWriter::new(&a.out, "Model.Capture", "check_case", "model_obs", 60);
@@ -1123,6 +1234,22 @@ fn main() {
         for _ in 0..nreal {
             all.push(gen_real(&mut r));
         }
+        for i in 0..nlate {
+            all.push(gen_late(&mut r, i));
+        }
+    }
+    // the late-writer tasks cost seconds of wall time each (and nothing else): they are started now,
+    // each in a world of its own (tasks of one world share the workspace lock), and run concurrently
+    // with the rest of the cases; the loop below collects them where they stand in the case list
+    let mut started: std::collections::HashMap<usize, tokio::task::JoinHandle<(Obs, Vec<u64>)>> = Default::default();
+    for (i, s) in all.iter().enumerate() {
+        if let Spec::Task { variant: 5..=7, .. } = s {
+            let sp = s.clone();
+            started.insert(i, rt.spawn(async move {
+                let mut wd = World::new();
+                run_task(&mut wd, &sp).await
+            }));
+        }
     }
     let mut world: Option<World> = None;
     for (i, s) in all.iter().enumerate() {
@@ -1132,16 +1259,26 @@ fn main() {
         res.bump(&format!("kind={}", kind_name(s)));
         // (observations, cases for the model)
         let got: Result<(Obs, Vec<(Spec, Vec<u64>)>), _> = match s {
-            Spec::Task { variant, out, err, cap, plimit, exit, cancel_after_ms, page } => {
-                if world.is_none() {
-                    let _g = rt.enter();
-                    world = Some(World::new());
+            Spec::Task { variant, late_ms, .. } => {
+                if (5..=7).contains(variant) {
+                    res.bump(&format!("late_writer=v{variant}/{}ms", late_ms / 500 * 500));
                 }
-                let wd = world.as_mut().unwrap();
-                std::panic::catch_unwind(std::panic::AssertUnwindSafe(|| {
-                    let (o, codes) = rt.block_on(run_task(wd, *variant, out, err, *cap, *plimit, *exit, *cancel_after_ms, *page));
-                    res_codes_case(o, codes, *variant)
-                }))
+                if let Some(h) = started.remove(&i) {
+                    match rt.block_on(h) {
+                        Ok((o, codes)) => Ok(res_codes_case(o, codes, *variant)),
+                        Err(e) => Err(Box::new(e.to_string()) as Box<dyn std::any::Any + Send>),
+                    }
+                } else {
+                    if world.is_none() {
+                        let _g = rt.enter();
+                        world = Some(World::new());
+                    }
+                    let wd = world.as_mut().unwrap();
+                    std::panic::catch_unwind(std::panic::AssertUnwindSafe(|| {
+                        let (o, codes) = rt.block_on(run_task(wd, s));
+                        res_codes_case(o, codes, *variant)
+                    }))
+                }
             }
             Spec::Bash { out, err, pmax, amax, exit } => {
                 if world.is_none() {
